@@ -159,6 +159,8 @@ def c02_one(res, g, drv_line_out=None):
     res.count("passed_untouched" if untouched else ("passed_equal_returned" if equal else "passed_mixture"))
     if g.get("_identical_priors"):
         res.count("identical_priors_tie_games")
+    if g.get("_zero_sigma_member"):
+        res.count("zero_sigma_member_games")
     # no object and no id appears twice in the result
     objs = [id(p) for t in out for p in t]
     ids_ = [p.id for t in out for p in t]
@@ -206,6 +208,17 @@ def c02_games(res, rng, n):
             g["oc"] = (rng.choice(["R", "S"]), encode_ranks(rng, sorted(set(dense)).__class__(
                 [sorted(set(dense)).index(d) for d in dense])))
             g["_identical_priors"] = True
+        elif rng.random() < 0.12:
+            # a member whose (inflated) sigma is exactly zero next to ordinary team mates: tau = 0 for this call
+            g["tauopt"] = 0.0
+            big = [i for i, t in enumerate(g["teams"]) if len(t) >= 2]
+            if not big:
+                g["teams"][0] = g["teams"][0] + [(g["teams"][0][0][0] + g["beta"], g["teams"][0][0][1] * 1.3)]
+                big = [0]
+            for i in big:
+                j = rng.randrange(len(g["teams"][i]))
+                g["teams"][i][j] = (g["teams"][i][j][0], rng.choice([0.0, 1e-170]))
+            g["_zero_sigma_member"] = True
         elif rng.random() < 0.2:
             g["tau"] = 1e3 * g["beta"]
             g["tauopt"] = None
@@ -944,9 +957,7 @@ def c07(res):
     rng = random.Random(res.seed)
     games = []
     for k in range(size(res, 2500, 15000)):
-        g = gen_game(rng, stratum=rng.choice(["typical", "wide", "mismatch", "identical", "equalsize", "corners"]))
-        if g["ls"] or g["lsopt"]:
-            g["ls"] = False; g["lsopt"] = None
+        g = gen_game(rng, stratum=rng.choice(["typical", "wide", "mismatch", "identical", "equalsize", "corners", "lopsided"]))
         if rng.random() < 0.3:
             # equal team variances
             s = g["teams"][0][0][1]
@@ -1195,9 +1206,7 @@ def c16(res):
     rng = random.Random(res.seed)
     games = []
     for _ in range(size(res, 400, 2500)):
-        g = gen_game(rng, stratum=rng.choice(["typical", "equalsize", "equalsize", "mismatch", "wide"]))
-        if g["gamma"][0] == "C":
-            pass
+        g = gen_game(rng, stratum=rng.choice(["typical", "equalsize", "equalsize", "mismatch", "wide", "lopsided"]))
         res.case(g)
         describe(res, g)
         c16_one(res, g, rng, games)
